@@ -3,7 +3,10 @@ package main
 import (
 	"fmt"
 	"os"
+	"sort"
 	"strings"
+
+	"golang.org/x/tools/go/ssa"
 )
 
 // c11CountFailure evaluates Handler.countFailure over the configurations of the passive checks: whenever passive
@@ -321,4 +324,72 @@ func c11Provision(c *Ctx, r *Report, rule string) {
 			r.check(len(problems) == 0, rule, fnName, name, c.pos(fn.Pos()), fmt.Sprintf("%d paths (%d successful)", len(paths), okPaths), strings.Join(dedup(problems), "; "))
 		}
 	}
+}
+
+// c11PeerKey: the process-wide peer table (health flags, failure and connection counters, the address that is
+// dialed) is keyed per backend. A key must tell backends apart that differ in anything that is dialed - network
+// included: tcp/H:P and udp/H:P are two backends. Every key used with the table (LoadOrStore, Delete, Load) derives
+// from the configured dial string itself (as written, or with placeholders replaced), or from the parsed
+// address's String() (which spells the network out) - not from a projection of the address.
+func c11PeerKey(c *Ctx, r *Report, rule string) {
+	r.rule(rule, "the shared peer table is keyed by the configured dial address itself (or the parsed address's String()), never by a projection that drops the network or the host: every key of LoadOrStore/Delete/Load on the table derives from Upstream.Dial", 2)
+	n := 0
+	for _, fn := range c.Funcs {
+		if fn.Pkg == nil || short(fn.Pkg.Pkg.Path()) != "modules/l4proxy" {
+			continue
+		}
+		for _, ci := range callsIn(fn) {
+			id := calleeID(ci)
+			if !(strings.HasSuffix(id, "UsagePool).LoadOrStore") || strings.HasSuffix(id, "UsagePool).Delete") || strings.HasSuffix(id, "UsagePool).LoadOrNew") || strings.HasSuffix(id, "sync.Map).LoadOrStore") || strings.HasSuffix(id, "sync.Map).Delete") || strings.HasSuffix(id, "sync.Map).Load")) {
+				continue
+			}
+			args := ci.Common().Args
+			if len(args) < 2 {
+				continue
+			}
+			tbl := args[0]
+			if ld, ok := tbl.(*ssa.UnOp); ok {
+				tbl = ld.X
+			}
+			g, ok := tbl.(*ssa.Global)
+			if !ok || !strings.HasSuffix(globalName(g), ".peers") {
+				continue
+			}
+			n++
+			var bad []string
+			for _, o := range c.originsIP(fn, args[1], 0) {
+				switch {
+				case o.Kind == "field" && strings.HasSuffix(o.Desc, "Upstream.Dial"):
+				case o.Kind == "const":
+				case o.Kind == "elem" && elemOfField(o.V, "Upstream.Dial"):
+				case o.Kind == "call" && (strings.Contains(o.Desc, "Replacer).Replace") || strings.HasSuffix(o.Desc, "NetworkAddress).String")):
+					// the dial string with placeholders replaced / the full spelling of the parsed address
+				default:
+					bad = append(bad, o.Kind+":"+o.Desc)
+				}
+			}
+			sort.Strings(bad)
+			r.check(len(bad) == 0, rule, fname(fn), fmt.Sprintf("%s key#%d", shortCallee(id), n), c.ipos(ci), "the key is the configured dial address", "the key of the peer table derives from "+strings.Join(dedup(bad), ", ")+" instead of the configured dial address: two backends that differ only in what the key leaves out (network, host) share one peer - one of them is never dialed, and their health and connection counts are mixed")
+		}
+	}
+}
+
+// elemOfField: v is an element (index load or range element) of a slice that is the named field.
+func elemOfField(v ssa.Value, field string) bool {
+	var ia *ssa.IndexAddr
+	switch x := v.(type) {
+	case *ssa.UnOp:
+		ia, _ = x.X.(*ssa.IndexAddr)
+	case *ssa.IndexAddr:
+		ia = x
+	}
+	if ia == nil {
+		return false
+	}
+	for _, o := range origins(ia.X, sliceOpts{}) {
+		if o.Kind == "field" && strings.HasSuffix(o.Desc, field) {
+			return true
+		}
+	}
+	return false
 }
